@@ -45,6 +45,12 @@ impl SwiftField for Field32A {
     where
         Self: Sized,
     {
+        if !input.is_ascii() {
+            return Err(ParseError::InvalidFormat {
+                message: "Field 32A must contain only ASCII characters".to_string(),
+            });
+        }
+
         // Field32A format: 6!n3!a15d (date + currency + amount)
         if input.len() < 10 {
             // Minimum: 6 digits date + 3 chars currency + 1 digit amount
@@ -114,6 +120,12 @@ impl SwiftField for Field32B {
     where
         Self: Sized,
     {
+        if !input.is_ascii() {
+            return Err(ParseError::InvalidFormat {
+                message: "Field 32B must contain only ASCII characters".to_string(),
+            });
+        }
+
         // Field32B format: 3!a15d (currency + amount)
         if input.len() < 4 {
             // Minimum: 3 chars currency + 1 digit amount
@@ -200,6 +212,12 @@ impl SwiftField for Field32C {
     where
         Self: Sized,
     {
+        if !input.is_ascii() {
+            return Err(ParseError::InvalidFormat {
+                message: "Field 32C must contain only ASCII characters".to_string(),
+            });
+        }
+
         // Same format as Field32A
         if input.len() < 10 {
             return Err(ParseError::InvalidFormat {
@@ -267,6 +285,12 @@ impl SwiftField for Field32D {
     where
         Self: Sized,
     {
+        if !input.is_ascii() {
+            return Err(ParseError::InvalidFormat {
+                message: "Field 32D must contain only ASCII characters".to_string(),
+            });
+        }
+
         // Same format as Field32A
         if input.len() < 10 {
             return Err(ParseError::InvalidFormat {
@@ -336,6 +360,11 @@ impl SwiftField for Field32 {
         // Try to determine variant based on content
         // If it starts with 6 digits (date), it's A, C, or D
         // Otherwise it's B (currency + amount only)
+        if !input.is_ascii() {
+            return Err(ParseError::InvalidFormat {
+                message: "Field 32 must contain only ASCII characters".to_string(),
+            });
+        }
         if input.len() >= 6 {
             // Check if first 6 chars are digits (date)
             if input[0..6].chars().all(|c| c.is_ascii_digit()) {
